@@ -1,4 +1,5 @@
 ---------------------------- MODULE MCCTFEFaults ----------------------------
 EXTENDS CTFEFaults, Json
+ASSUME MapperDimensionComplete /\ ProofListDimensionComplete /\ EchoDimensionComplete
 Export == PrintT(<<"CASE", ToJson([c |-> c, expect |-> Exp(c)])>>)
 =============================================================================
